@@ -202,7 +202,9 @@ func TestVF_C19_LegendreSqrt(t *testing.T) {
 		want := gobig.Jacobi(new(gobig.Int).Mod(a, p), p)
 		got := LegendreSymbol(g(a), g(p))
 		rec.Case(fmt.Sprintf("Legendre/random/p=%dmod8", mod8), true, "ls|"+a.String()+"|"+p.String())
-		rec.Sample(func() any { return map[string]any{"helper": "LegendreSymbol/PrimeSqrt", "p_bits": p.BitLen(), "p_mod_8": mod8} })
+		rec.Sample(func() any {
+			return map[string]any{"helper": "LegendreSymbol/PrimeSqrt", "p_bits": p.BitLen(), "p_mod_8": mod8}
+		})
 		if got != want {
 			rec.Fail(rt, "LegendreSymbol-wrong", map[string]any{"a": a.String(), "p": p.String(), "got": got, "want": want})
 			return
@@ -426,7 +428,9 @@ func TestVF_C19_FourSquares(t *testing.T) {
 			n = genBig(rt, "n", rapid.SampledFrom([]int{4, 16, 32, 64, 128}).Draw(rt, "nb"))
 		}
 		rec.Case("SumFourSquares/random/"+fourSqClass(n), true, "4sq|"+n.String())
-		rec.Sample(func() any { return map[string]any{"helper": "SumFourSquares", "n_bits": n.BitLen(), "class": fourSqClass(n)} })
+		rec.Sample(func() any {
+			return map[string]any{"helper": "SumFourSquares", "n_bits": n.BitLen(), "class": fourSqClass(n)}
+		})
 		if s := checkFourSquares(n); s != "" {
 			rec.Fail(rt, s, map[string]any{"n": n.String()})
 		}
@@ -516,7 +520,9 @@ func TestVF_C19_FastMod(t *testing.T) {
 		}
 		alias := rapid.Bool().Draw(rt, "alias")
 		rec.Case(fmt.Sprintf("FastMod/random/negative=%v/alias=%v", x.Sign() < 0, alias), true, "fm|"+p.String()+"|"+x.String())
-		rec.Sample(func() any { return map[string]any{"helper": "FastMod", "b": b, "x_bits": x.BitLen(), "negative": x.Sign() < 0, "aliased": alias} })
+		rec.Sample(func() any {
+			return map[string]any{"helper": "FastMod", "b": b, "x_bits": x.BitLen(), "negative": x.Sign() < 0, "aliased": alias}
+		})
 		if s := check(p, x, alias); s != "" {
 			rec.Fail(rt, s, map[string]any{"p": p.String(), "x": x.String(), "alias": alias})
 		}
